@@ -63,6 +63,18 @@ def auto_models(seed):
                                 ["x3", "de", ["-", ["*", V("k2"), V("x1")], ["*", V("k3"), V("x3")]]]],
                vars={"x1": ["output", 0.9], "x2": ["state", 0.5], "x3": ["state", -0.2], "k1": ["const", 1.3], "k2": ["const", 0.4], "k3": ["const", 0.25]})
     out.append(("AU-parameter-free-middle-equation", dict(n_params=3), gen.model([so3], {"p": dict(ops=["opx"])})))
+    # boundary-value export: two parameters that only the boundary / integral residuals read, each named in TWO residuals; ten parameters
+    # in all, so the extra ones land beyond the reserved range
+    bv = dict(name="opx", eqs=[["x1", "de", ["*", V("k1"), ["+", V("x2"), ["*", ["*", V("k2"), V("k3")], V("x1")]]]],
+                               ["x2", "de", ["+", ["*", V("k1"), ["-", ["*", V("k5"), V("x2")], ["*", V("k4"), V("x1")]]], ["*", V("k6"), ["*", V("k7"), V("k8")]]]]],
+              vars={"x1": ["output", 0.25], "x2": ["state", 0.1], "k1": ["const", 6.5], "k2": ["const", 0.1], "k3": ["const", -0.2], "k4": ["const", 1.0],
+                    "k5": ["const", 0.5], "k6": ["const", 0.3], "k7": ["const", 0.4], "k8": ["const", 1.25], "amp": ["const", 2.0], "intval": ["const", 0.75]})
+    out.append(("AU-bvp-extra-parameters-in-two-residuals", dict(n_params=10, bvp=True,
+                                                                  extra_kw=dict(auto_constants=("bvp", "lc"),
+                                                                                boundary_conditions=["u1_x1 - u0_x1", "u1_x2 - u0_x2", "u0_x1 - par_amp"],
+                                                                                integral_constraints=["u_x1*u_x1 + u_x2*u_x2 - par_intval*par_amp",
+                                                                                                      "u_x1*upold_x1 + u_x2*upold_x2 - par_intval"])),
+                gen.model([bv], {"p": dict(ops=["opx"])})))
     return out
 
 
@@ -93,13 +105,13 @@ def case_fn(c):
     tpl = mdl.build_templates(model)
     try:
         tpl.get_run_func("vfx", step_size=1e-3, file_name="auto_mod", backend="fortran", float_precision="float64", auto=True,
-                         vectorize=False, solver="scipy", verbose=False)
+                         vectorize=False, solver="scipy", verbose=False, **c.get("features", {}).get("extra_kw", {}))
     except Exception as exn:
         if not os.path.exists("auto_mod.f90"):
             return dict(status="violated", fails=[dict(clause="auto-07p export writes its files", observed=f"{type(exn).__name__}: {exn}")])
     src = open("auto_mod.f90").read().replace("&\n     &", " ").replace("&\n", " ")
     src = re.sub(r"&\s*\n\s*&", " ", src)
-    cfile = open("c.ivp").read()
+    cfile = open("c.ivp" if os.path.exists("c.ivp") else sorted(f_ for f_ in os.listdir(".") if f_.startswith("c."))[0]).read()
     fails = []
 
     def fail(clause, **kw):
